@@ -16,6 +16,7 @@ structure CenteredTerm.OK (t : CenteredTerm α) (L : Nat) : Prop where
 def CenteredTerm.rightTerm (t : CenteredTerm α) : ExpTerm α :=
   ⟨t.strength, t.lam, t.opi, t.opj, t.subsites, [t.i], t.str⟩
 
+omit [CommSemiring α] [Inhabited α] in
 theorem CenteredTerm.rightTerm_OK (t : CenteredTerm α) (L : Nat) (hok : t.OK L) : t.rightTerm.OK L :=
   ⟨hok.subs, hok.subsL, by simp [CenteredTerm.rightTerm], by
     intro j hj
@@ -23,9 +24,11 @@ theorem CenteredTerm.rightTerm_OK (t : CenteredTerm α) (L : Nat) (hok : t.OK L)
     subst hj
     exact hok.subsL _ hok.mem, by simp [CenteredTerm.rightTerm]⟩
 
+omit [CommSemiring α] [Inhabited α] in
 theorem CenteredTerm.first_le (t : CenteredTerm α) (L : Nat) (hok : t.OK L) : t.first ≤ t.i :=
   headD_le_of_sorted _ hok.subs 0 _ hok.mem
 
+omit [CommSemiring α] [Inhabited α] in
 theorem CenteredTerm.le_last (t : CenteredTerm α) (L : Nat) (hok : t.OK L) : t.i ≤ t.last :=
   le_getLastD_of_sorted _ hok.subs 0 _ hok.mem
 
